@@ -208,7 +208,7 @@ Definition wf_replay (r : replay) : bool :=
   | ROk st =>
       let slots := slots_of (port_occupancy st) in
       assert_max_version_ok v
-      && (length (r_start r) <=? 65535)%nat
+      && (nn (length (r_start r)) <=? 65535)%N
       && forallb (wf_frame v L slots) (r_frames r)
       && (if vgte v 2 2 then true else ids_from FIRST_INDEX (r_frames r))
       && wf_gecko v (r_gecko r)
